@@ -16,6 +16,7 @@
 package main
 
 import (
+	"encoding/json"
 	"fmt"
 	"time"
 
@@ -486,19 +487,41 @@ func permute(xs []string, f func([]string)) {
 
 func main() {
 	o := c.NewOut("C10")
+	o.ShardSize = 120 // plugin cases are big terms: smaller shards evaluate in parallel
 	o.DeclareSuite("seq", "From Verif Require Import C10.Model.", "case", "run_case")
 	o.DeclareSuite("forced", "From Verif Require Import C10.Model.", "case", "run_case")
+	o.DeclareSuite("plugin", "From Verif Require Import C10.Model C10.Plugin.", "case_plugin", "run_plugin")
 	o.Rule("seq: random sequential mock-clock histories (quota 1-3, queue size 1-4, windows 1 us/250 ms/1 s, " +
 		"arrivals with priorities 0-2 and TTLs around the window size, instants on boundary-1/boundary/boundary+1 and " +
 		"TTL deadline +-1, timers fired in deadline order), a quarter of them through StrategyBasedQueuePlugin.OnRequest; " +
 		"forced: the two refutation witnesses, every order of {roll-over pass, parks of held waiters, one new arrival} " +
 		"around one roll-over for up to N waiters, and random schedules using the yield hooks; distinct = distinct " +
 		"(settings, action list, observables); non-trivial = a roll-over pass ran while somebody waited and at least " +
-		"one Enqueue returned false")
-	var k Case
-	if suite, ok := o.ReplayCase(&k); ok {
-		execCase(&k)
-		record(o, suite, &k)
+		"one Enqueue returned false; plugin: the real StrategyBasedQueuePlugin.OnRequest/OnResponse over 1-3 remedies " +
+		"(quota 1-3, windows 1-3 s, TTL 1-4 s, queue size 1-3, three prioritization tables incl. a group for the missing " +
+		"header, equal strategies under different names, one name with a changed strategy, one key with changed per-call " +
+		"parameters, a remedy without configuration): online histories with bursts, clock advances to boundary-1/boundary/" +
+		"boundary+1 and TTL deadline +-1, and forced interleavings in which the first request of a remedy is held inside " +
+		"the queue factory while others arrive (every order of build/enqueue steps for 2-3 first requests, plus random ones); " +
+		"non-trivial (plugin) = somebody waited, somebody was released by a roll-over and somebody was refused, or a " +
+		"request really was blocked behind / concurrent with a queue construction")
+	var raw json.RawMessage
+	if suite, ok := o.ReplayCase(&raw); ok {
+		if suite == "plugin" {
+			var pk PCase
+			if err := json.Unmarshal(raw, &pk); err != nil {
+				panic(err)
+			}
+			execPCase(&pk)
+			recordP(o, &pk)
+		} else {
+			var k Case
+			if err := json.Unmarshal(raw, &k); err != nil {
+				panic(err)
+			}
+			execCase(&k)
+			record(o, suite, &k)
+		}
 		o.Finish()
 		return
 	}
@@ -514,6 +537,13 @@ func main() {
 	}
 	for i, n := 0, o.Scale(1500, 20000, 12000); i < n && !enough(); i++ {
 		record(o, "forced", genForced(o, i%5 == 4))
+	}
+	scriptedPlugin(o, o.Scale(2, 3, 3))
+	for i, n := 0, o.Scale(700, 8000, 5000); i < n && !enough(); i++ {
+		recordP(o, genPluginSeq(o))
+	}
+	for i, n := 0, o.Scale(500, 6000, 5000); i < n && !enough(); i++ {
+		recordP(o, genPluginForced(o))
 	}
 	if enough() {
 		o.Note("generation stopped early: more than 400 monitor hits outside the known findings")
